@@ -285,7 +285,10 @@ pub enum Ev {
         msg: String,
         file: String,
     },
-    IfEdit(String),
+    IfEdit {
+        what: String,
+        ifs: Vec<IfSpec>,
+    },
     Note(String),
 }
 
@@ -327,6 +330,22 @@ impl Trace {
             _ => None,
         })
     }
+    /// The interface table of `host` as the scenario last set it at or before `t`.
+    pub fn ifs_at(&self, host: usize, t: u64) -> Vec<IfSpec> {
+        let mut cur = Vec::new();
+        for e in self.entries.iter() {
+            if e.t > t {
+                break;
+            }
+            if let Ev::IfEdit { ifs, .. } = &e.ev {
+                if e.host == host {
+                    cur = ifs.clone();
+                }
+            }
+        }
+        cur
+    }
+
     pub fn deaths(&self) -> impl Iterator<Item = &Entry> {
         self.entries
             .iter()
@@ -435,7 +454,13 @@ pub fn render_entry(e: &Entry) -> String {
             other => format!("ev#{chan} {other:?}"),
         },
         Ev::Death { panicked, msg, file } => format!("DEATH panicked={panicked} {msg} @{file}"),
-        Ev::IfEdit(s) => format!("ifedit {s}"),
+        Ev::IfEdit { what, ifs } => format!(
+            "ifedit {what}: {}",
+            ifs.iter()
+                .map(|i| format!("{}#{}{}{:?}", i.name, i.index, if i.up { "" } else { "(down)" }, i.addrs))
+                .collect::<Vec<_>>()
+                .join(" ")
+        ),
         Ev::Note(s) => format!("note {s}"),
     };
     format!("+{rel}ms h{} i{} {}", e.host, e.iter, body)
@@ -609,6 +634,14 @@ impl World {
             iterations: 0,
             last_snapshot: None,
         });
+        let ifs0 = self.hosts[id].ifs.clone();
+        self.push(
+            id,
+            Ev::IfEdit {
+                what: "initial".to_string(),
+                ifs: ifs0,
+            },
+        );
         self.wait_parked(id);
         self.collect(id, 0, 0);
         id
@@ -1047,8 +1080,14 @@ impl World {
 
     pub fn set_ifs(&mut self, h: usize, ifs: Vec<IfSpec>, what: &str) {
         self.hosts[h].ctx.lock().ifaces = interfaces_of(&ifs);
-        self.hosts[h].ifs = ifs;
-        self.push(h, Ev::IfEdit(what.to_string()));
+        self.hosts[h].ifs = ifs.clone();
+        self.push(
+            h,
+            Ev::IfEdit {
+                what: what.to_string(),
+                ifs,
+            },
+        );
     }
 
     // ----- channels -----
